@@ -106,8 +106,27 @@ var s12Type = func() reflect.Type {
 	return reflect.StructOf(fs)
 }()
 
+// S13: a field whose name is not ASCII
+type S13 struct {
+	Élan string
+	X    int
+}
+
+// spell: how a name of the model is written in a template ("Uelan", "uelan" stand for names outside ASCII)
+func spell(n string) string {
+	switch n {
+	case "Uelan":
+		return "Élan"
+	case "uelan":
+		return "élan"
+	}
+	return n
+}
+
 func shapeValue(sh string) interface{} {
 	switch sh {
+	case "S13":
+		return S13{Élan: "e", X: 17}
 	case "S11":
 		return S11{ubase: ubase{W: "w", X: 33}, K: 21}
 	case "S12":
@@ -158,17 +177,17 @@ func buildAObj(o AObj) interface{} {
 	if o.K == "map" {
 		switch o.G {
 		case "mss":
-			m := map[string]string{"X": "x", "Y": "y"}
+			m := map[string]string{"X": "x", "Y": "y", "élan": "u"}
 			if o.Ptr {
 				return &m
 			}
 			return m
 		case "msi":
-			return map[string]int{"X": 8, "Y": 9}
+			return map[string]int{"X": 8, "Y": 9, "élan": 3}
 		case "mii":
-			return map[interface{}]interface{}{"X": 8, "Y": 9, 1: "one", 2.5: "f"}
+			return map[interface{}]interface{}{"X": 8, "Y": 9, 1: "one", 2.5: "f", "élan": 3}
 		}
-		m := map[string]interface{}{"X": 8, "Y": 9, "0": 7, "": 6, "1": 5}
+		m := map[string]interface{}{"X": 8, "Y": 9, "0": 7, "": 6, "1": 5, "élan": 3}
 		if o.Ptr {
 			return &m
 		}
@@ -204,6 +223,8 @@ type ACase struct {
 	Tags []string `json:"tags"`
 	Cap  int      `json:"cap"`
 	Ops  []AOp    `json:"ops"`
+	// Forms: every lookup is also written with the object reached through a list element, a map entry and parentheses
+	Forms bool `json:"forms"`
 }
 
 var floodCounter int
@@ -261,8 +282,13 @@ func runAttrHist(c *ACase) (res Result) {
 		} else if op.Obj.Ptr {
 			desc = "*" + desc
 		}
-		want := textOf(op.Want, nil, false)
-		for _, form := range []string{"attr", "item", "defined"} {
+		member := textOf(op.Want, nil, false)
+		forms := []string{"attr", "item", "defined"}
+		if c.Forms {
+			forms = append(forms, "listelem", "mapentry", "paren")
+		}
+		name := spell(op.N)
+		for _, form := range forms {
 			if form == "item" && op.Obj.K != "map" {
 				continue
 			}
@@ -270,13 +296,21 @@ func runAttrHist(c *ACase) (res Result) {
 			if form == "defined" && (op.Any || op.Obj.EmbNil) {
 				continue
 			}
-			src := "{{ o." + op.N + " }}"
-			if form == "item" {
-				src = "{{ o['" + op.N + "'] }}"
+			want := member
+			src := "{{ o." + name + " }}"
+			switch form {
+			case "item":
+				src = "{{ o['" + name + "'] }}"
+			case "listelem":
+				src = "{{ l[0]." + name + " }}"
+			case "mapentry":
+				src = "{{ m['k']." + name + " }}"
+			case "paren":
+				src = "{{ (o)." + name + " }}"
 			}
 			if form == "defined" {
 				// the member exists iff the lookup yields something (no member of the shapes holds null)
-				src = "{{ o." + op.N + " is defined ? 'D' : 'U' }}"
+				src = "{{ o." + name + " is defined ? 'D' : 'U' }}"
 				want = "U"
 				if len(op.Want) > 0 {
 					want = "D"
@@ -288,9 +322,9 @@ func runAttrHist(c *ACase) (res Result) {
 				res.Fails = append(res.Fails, Fail{Run: fmt.Sprintf("op%d", i+1), Why: "parse", Got: err.Error(), Src: strings.Join(trail, " ; ")})
 				return
 			}
-			out, err := e.Render("t", map[string]interface{}{"o": obj})
+			out, err := e.Render("t", map[string]interface{}{"o": obj, "l": []interface{}{obj}, "m": map[string]interface{}{"k": obj}})
 			if err == nil && form == "attr" {
-				fmt.Fprintf(&jointSrc, "{%% set r%d = o%d.%s %%}", i, i, op.N)
+				fmt.Fprintf(&jointSrc, "{%% set r%d = o%d.%s %%}", i, i, name)
 				jointCtx[fmt.Sprintf("o%d", i)] = obj
 				jointWant.WriteString(out + "|")
 			}
